@@ -254,4 +254,69 @@ PROPS = {
         "modelled": ["every Inc()/Dec() of connection.go, session.go, v2sessionless.go, v2session.go, v2session_new.go, bmc.go, sessionless_transport.go as a step function"],
         "assumptions": ["Close called twice on one session/connection is outside the property (matched opens and closes)"],
     },
+    "C14": {'claim': "Lean theorems over a model of sdr_repository.go (walkSDRs / RetrieveSDRRepository as functions of the BMC's answer function) and an independent "
+          'specification of the SDR Repository Device (ordered records, Next links, reservations cancelled by every modification, addition/erase timestamps, '
+          'modifications scheduled before any request): for a repository of ANY size with distinct IDs (none FFFFh, 0000h only in front) whose Full Sensor '
+          "Records fit the library's 64-byte limit, the walk returns exactly the type-01h records, each once, under the record's own ID, decoded as the C07 "
+          'reference decoding (walk_complete, retrieve_complete, result_exact; fuel = records + 1 suffices); for ANY BMC a failed or non-00h Get SDR (C5h) '
+          'makes the walk return no map, a failed walk or a newer addition/erase timestamp makes the closure drop the candidate, and the retry loop then runs '
+          'the whole closure again (modified_discarded_*); against the conforming BMC under arbitrary interleaved additions, deletions and reservation losses, '
+          'whatever is returned equals the Full Sensor Records of the repository at the instant the final Get SDR Repository Info was answered, and nothing '
+          'changed during that whole run (snapshot, snapshot_run). The theorems are for the REPAIRED map key (header.ID); the pinned tree stores under the '
+          "requested ID (first record under 0000h) - exhibited by a decide-checked example and by the correspondence run's model-independent verdict.",
+ 'note': 'trusted: Lean kernel; the hand-written model of sdr_repository.go tied by running the real bmc.RetrieveSDRRepository over a real RMCP+ session '
+         'against a Go-simulated repository device and comparing map, keys, every decoded field and the request count with the model run against the Lean '
+         'specification BMC; the Go verdict decodes with a reference decoder written from the 43.1 table; one SendCommand = one request/one final answer (the '
+         'packet exchange underneath is C03/C04/C10/C11); timestamps assumed to be bumped by every modification and not to wrap 2^32',
+ 'technique': 'Lean 4 proof (induction over the repository for completeness; induction over the walk with a timestamp squeeze for the snapshot property; '
+              'log-wrapper induction for any answer function) + differential correspondence through a real session with event injection before every Get SDR',
+ 'ref': '§5 C14',
+ 'proofs': ['Bmc.Proofs.C14'],
+ 'scenarios': ['sdr'],
+ 'timeout': 3000,
+ 'rule': 'repositories of 1..40 records (thorough: every size 1..40 x 4 mixes), IDs sparse and unordered in 0000h..FFFEh, first ID zero or non-zero, types '
+         'full/compact/locators/OEM/association with bodies 0..255 bytes, Full Sensor Records with all four ID string encodings x every count 0..31 and bodies '
+         'padded to exactly 64 bytes; a reservation loss, an addition and a deletion injected before EACH Get SDR request of the walk (and one position past '
+         'it); timestamp edge values; too small a retry budget; malformed stream (empty repository, over-long / truncated Full Sensor Records, a deletion that '
+         'empties the repository). Non-trivial = every op (each runs a whole retrieval through a real session); distinct = distinct op line.',
+ 'modelled': ['walkSDRs / RetrieveSDRRepository are hand models (Proto/SdrWalk.lean) tied by correspondence; gopacket.NewPacket(Lazy) is modelled as '
+              "decode-of-a-copy with 'no layer' = error; backoff.Retry is modelled as a bounded number of runs of the closure (the context's budget), its "
+              'waiting times are not modelled'],
+ 'assumptions': ['every modification of the repository updates the addition or the erase timestamp (a BMC whose timestamps have one-second resolution and '
+                 'which is modified twice within a second is outside the theorem)',
+                 'Next links do not form a cycle (a well-formed repository has none); against a cyclic BMC the Go loop ends only with the context']},
+    "C16": {'claim': 'Lean theorems over the models of parseCipherSuiteRecordData, RetrieveSupportedCipherSuites, getEntityInstances, getSensorMap and GetSensorInfo, for '
+          'inputs of every size: any list of well-formed standard/OEM records with any number of integrity and confidentiality algorithms parses to one entry '
+          'per combination in order (parse_encode); every byte string gives a list or an error, never a panic (parse_total), with errors for a bad start byte, '
+          'a stray tag and a record cut in or right after its header (parse_malformed_*); record data shorter than 1024 bytes served 16 bytes per list index '
+          'is reassembled exactly, exact multiples of 16 included, asking for indices 0..len/16 once each (chunks_reassemble, retrieve_complete, '
+          'retrieve_eq_parse); a DCMI BMC holding any 0..255 record IDs per entity and paging by instance start with any page size >= 1 is enumerated '
+          'completely and in order (dcmi_pages), the DCMI-specific entity IDs are used exactly when the standard ones gave an error or no IDs (fallback_iff, '
+          'for every BMC), and both loops terminate within 65 / 256 rounds against every BMC (chunks_fuel, dcmi_fuel). The models are tied to the code by '
+          "running the real functions through the verif transport hook against a simulated paging BMC and comparing results and request logs with the model's; "
+          'the Go side also checks every result against a small reference implementation (record grammar recogniser, expected record IDs).',
+ 'note': 'trusted: Lean kernel; hand-written models tied by correspondence; Spec/Enum.lean (Table 22-18 record grammar, 16-byte paging, DCMI instance-start '
+         "paging as the library's doc comments read it); the request/response layers and the retry loop below SendCommand are covered by C06/C07/C10, here a "
+         'BMC answer is a response body or an error. Outside the domain: record data of exactly 1024 bytes (64 full chunks) makes the code issue a 65th '
+         'request whose list index goes out as 0 and appends the first chunk again (decide-checked example in Proofs/C16.lean; `ListIndex == 63` repairs it, '
+         'chunks_reassemble_limit63).',
+ 'technique': 'Lean 4 proof (induction on record lists, runs of tagged bytes, fuel; tag-bit facts by kernel-checked decide) + differential correspondence '
+              'through the transport hook + reference verdicts',
+ 'ref': '§5 C16',
+ 'proofs': ['Bmc.Proofs.C16'],
+ 'scenarios': ['enum'],
+ 'rule': 'record lists of 0..20 random records (standard/OEM, 0..3 integrity and confidentiality algorithms each) and lists built to every encoded length 0, '
+         '3..96 bytes (1..7 chunks, every residue mod 16 incl. exact multiples) plus 160..1023 bytes, each retrieved through 16-byte pages AND parsed '
+         'directly; malformed stream: truncation at every offset, every position overwritten / a byte inserted with each tag class, all 256 values in six '
+         'positions, random strings over the tag alphabet; DCMI: instance counts (quick: 25 stratified values, thorough: all 0..255) x page sizes 1..8 x 3 '
+         'entities x both entity-ID families, the DCMI family reached through both triggers (no IDs / rejection at the first, second or third standard '
+         'entity), rejections under the DCMI IDs, pages up to 240 IDs; class M: BMCs with other page sizes, failing indices, 1024+ bytes, misreported totals, '
+         'empty pages. Non-trivial = at least one record / malformed input / one record ID held; distinct = distinct op line.',
+ 'exhaustive_thorough': False,
+ 'modelled': ['parseCipherSuiteRecordData, RetrieveSupportedCipherSuites, getEntityInstances, getSensorMap, GetSensorInfo are hand models (Proto/Enum.lean); '
+              "SendCommand + ValidateResponse are abstracted to 'response body or error' (C10/C11 cover them); the response layers are the models of C07 "
+              '(GetChannelCipherSuitesRsp, GetDCMISensorInfoRsp)'],
+ 'assumptions': ['a conforming BMC answers a list index past the end of the record data with a normal completion code and no data (IPMI 22.15), and numbers '
+                 "entity instances from 1 with 'instance start' selecting the first one reported (DCMI 6.5.2 as read by the library)",
+                 'cipher suite record data is shorter than 1024 bytes (see note)']},
 }
